@@ -34,6 +34,16 @@ func isSentinelLoad(v ssa.Value, name string) bool {
 }
 
 func runC05(p *an.Prog, r *an.Run, tier string) {
+	// the nonce is remembered under the identity string as received: the signature must bind exactly that spelling and
+	// exactly that nonce, or one signed request is honoured once per spelling / per neighbouring nonce (shared with C04)
+	checkHashCovers(p, r)
+	checkNonceStores(p, r)
+}
+
+// checkNonceStores: the replay protection itself — both NonceStore drivers (strict, cas-atomic, fresh, key), the
+// writers of the nonce space, and the wrappers' use of the store (same-identity, nonce-error). Shared with C06: a
+// replayed or raced copy of a request that is honoured again is a refused request that changed something.
+func checkNonceStores(p *an.Prog, r *an.Run) {
 	iface := p.Iface("pool/store", "NonceStore")
 	if iface == nil {
 		r.Undec("anchors", "store.NonceStore", token.NoPos, "interface store.NonceStore not found")
@@ -49,9 +59,6 @@ func runC05(p *an.Prog, r *an.Run, tier string) {
 		}
 	}
 	r.Floor("implementations", len(drivers), 2)
-	// the nonce is remembered under the identity string as received: the signature must bind exactly that spelling and
-	// exactly that nonce, or one signed request is honoured once per spelling / per neighbouring nonce (shared with C04)
-	checkHashCovers(p, r)
 	window, okW := p.PkgConstInt("pool/store", "ExpireNonce")
 	r.Check(okW && window == int64(15*60*1e9), "fresh", "store.ExpireNonce", token.NoPos, "ExpireNonce = 15m", "store.ExpireNonce evaluates to %d ns, the property fixes the freshness window at 15 minutes", window)
 
@@ -342,6 +349,56 @@ func runC05(p *an.Prog, r *an.Run, tier string) {
 					if !margin {
 						bad = append(bad, "the nonce entry's TTL has no margin for badger's whole-second expiry (ExpiresAt is rounded down): the record can vanish up to a second before a replay of the nonce starts failing the age check")
 					}
+					// every value the TTL can take is at least the window: no assignment replaces the window by something else
+					var leaves []ssa.Value
+					var expand func(v ssa.Value, seen map[ssa.Value]bool)
+					expand = func(v ssa.Value, seen map[ssa.Value]bool) {
+						if seen[v] {
+							return
+						}
+						seen[v] = true
+						if ph, ok := v.(*ssa.Phi); ok {
+							for _, e := range ph.Edges {
+								expand(e, seen)
+							}
+							return
+						}
+						leaves = append(leaves, v)
+					}
+					expand(c.Common().Args[3], map[ssa.Value]bool{})
+					for _, lf := range leaves {
+						if k, ok := an.ConstInt(lf); ok && k >= int64(1<<62) {
+							continue // overflow clamp
+						}
+						if !derivesField(p, lf, "badgerStore", "nonceExpire") {
+							bad = append(bad, "the nonce entry's TTL can be set to a value that does not include the freshness window ("+p.Pos(lf.Pos())+"): the record expires while a replay still passes the age check")
+						}
+						// the nonce's lead is added, and only when it is positive
+						if bo, ok := lf.(*ssa.BinOp); ok && p.Derives(0, lf).HasParam(noncePrm) {
+							if bo.Op != token.ADD {
+								bad = append(bad, "the nonce's lead over the clock enters the TTL through '"+bo.Op.String()+"', not by addition")
+							}
+							lead := bo.Y
+							if p.Derives(0, bo.X).HasParam(noncePrm) && !p.Derives(0, bo.Y).HasParam(noncePrm) {
+								lead = bo.X
+							}
+							okSign := false
+							for _, cr := range ctrlRels(bo.Block()) {
+								l, r0 := cr.L, cr.R
+								op := cr.Op
+								if k, isK := an.ConstInt(l); isK && k == 0 {
+									l, r0 = r0, l
+									op = cr.Rel.Swap().Op
+								}
+								if k, isK := an.ConstInt(r0); isK && k == 0 && l == lead && (op == token.GTR || op == token.GEQ) {
+									okSign = true
+								}
+							}
+							if !okSign {
+								bad = append(bad, "the nonce's lead over the clock is added to the TTL without being known positive (a negative 'lead' shortens the record's life below the window)")
+							}
+						}
+					}
 					if !dt.HasParam(noncePrm) || dt.CallTo(func(f *types.Func) bool { return an.IsFunc(f, "time", "Now") }) == nil {
 						bad = append(bad, "the nonce entry's TTL does not depend on how far the nonce lies ahead of the clock: the record of a future nonce expires while a replay of the same request still passes the age check, and is honoured again")
 					}
@@ -428,6 +485,12 @@ func runC05(p *an.Prog, r *an.Run, tier string) {
 		r.Check(len(bad) == 0, "nonce-writers", kind, token.NoPos, "saved nonces are written by CheckAndSaveNonce only", "%s", strings.Join(dedup(bad), "; "))
 	}
 
+	checkSameIdentity(p, r)
+}
+
+// checkSameIdentity: every verify wrapper hands the nonce store the identity and nonce it verified (shared with C04: a
+// store keyed by anything else refuses correctly signed fresh requests of other identities) and refuses on its errors.
+func checkSameIdentity(p *an.Prog, r *an.Run) {
 	// ---- same-identity
 	ws := VerifyWrappers(p)
 	r.Floor("verify-wrappers", len(ws), 2)
